@@ -191,9 +191,12 @@ type ChanV struct {
 type BigObj struct {
 	v   *Term // math/big.Int as mathematical Int
 	dig *StrV // optional: the decimal digits of |v| (with possible leading zeros) when v was parsed from text
+	byt *SliceV // optional: the big-endian bytes of |v| (with possible leading zeros) when v was set from bytes
 }
 type TimeObj struct {
-	days, nanos *Term // days since 0001-01-01 (Int), nanoseconds in day (Int)
+	days, nanos *Term      // days since 0001-01-01 (Int), nanoseconds in day (Int)
+	civ         *[3]*Term // year, month, day when known
+	clk         *[4]*Term // hour, minute, second, nanosecond when introduced
 }
 type BufObj struct {
 	s  *SliceV // content
